@@ -203,3 +203,17 @@ R.contract(
     note="C19, second half: the chosen production has a positive declared weight, unless the total effective weight is below the "
     "chooser's resolution of 1e-5 (stated over the function's own `declared` / `weights` lists)",
 )
+
+# ---- the unconstrained chooser (used for source material in tree crossover; no depth guarantee) ------------------------
+R.contract(
+    "BaseDecider.choose_options",
+    file=INI,
+    typevars=["T"],
+    params=dict(self="BaseDecider", alternatives="list[T]", ctx="LocalSynthesisContext"),
+    returns="T",
+    requires={"some_alternative": "len(alternatives) >= 1"},
+    ensures={"is_an_option": "exists(0, len(alternatives), lambda k: result == alternatives[k])"},
+    modifies=["self.random.*"],
+    props=["C01", "C04"],
+    note="a uniform pick among the options: a member of the list, and nothing about its depth",
+)
